@@ -735,6 +735,48 @@ def rule_finalize_handoff(ctx):
         if not ok:
             r.violate(FINALIZE, "handoff", "finalize must push the local bag to the global queue under its own pin (with the "
                       "temporary handle_count = 1 against re-entry) before marking the participant deleted", b.loc(0))
+    # finalize is reached from unpin (outermost guard, no handle left) and from release_handle (last handle, not pinned)
+    ub = prog.body(UNPIN)
+    nfin = 0
+    for p in ctx.ex.paths(ub):
+        if p.exit[0] != "return":
+            continue
+        outer = [e for e in p.events if _cmp_cell(e, "Local.guard_count", "Eq", 1)]
+        hz = [e for e in p.events if _cmp_cell(e, "Local.handle_count", "Eq", 0)]
+        fin = [e for e in p.events if e.kind == "call" and e.target == FINALIZE]
+        if outer and outer[0].value == 1:
+            if not hz:
+                r.violate(UNPIN, "finalize", "the outermost unpin does not test whether the last handle is gone", ub.loc(0))
+                continue
+            want = 1 if hz[-1].value == 1 else 0
+            nfin += 1
+            ok = len(fin) == want
+            r.instance("unpin (outermost): handle_count==0 is %s -> %d finalize call(s)" % (bool(want), len(fin)), ok)
+            if not ok:
+                r.violate(UNPIN, "finalize", "dropping the last guard of a participant whose handles are all gone does not "
+                          "finalize it: its bag is never handed over and it is never unregistered", hz[-1].loc())
+        elif fin:
+            r.violate(UNPIN, "finalize", "a nested unpin finalizes the participant", fin[0].loc())
+    rb = prog.body(P + "Local::release_handle")
+    for p in ctx.ex.paths(rb):
+        if p.exit[0] != "return":
+            continue
+        g0 = [e for e in p.events if _cmp_cell(e, "Local.guard_count", "Eq", 0)]
+        h1 = [e for e in p.events if _cmp_cell(e, "Local.handle_count", "Eq", 1)]
+        fin = [e for e in p.events if e.kind == "call" and e.target == FINALIZE]
+        last = bool(g0) and g0[-1].value == 1 and bool(h1) and h1[-1].value == 1
+        undecided = not g0 or (g0[-1].value == 1 and not h1)
+        if undecided:
+            r.violate(rb.name, "finalize", "release_handle does not decide `guard_count == 0 && handle_count == 1`", rb.loc(0))
+            continue
+        nfin += 1
+        ok = len(fin) == (1 if last else 0)
+        r.instance("release_handle: last handle and unpinned is %s -> %d finalize call(s)" % (last, len(fin)), ok)
+        if not ok:
+            r.violate(rb.name, "finalize", "releasing the last handle of an unpinned participant must finalize it exactly once "
+                      "(and only then)", rb.loc(0))
+    if nfin < 4:
+        r.floor_failures.append("EBR-FINALIZE-HANDOFF: found %d finalize decision paths, expected at least 4" % nfin)
     # push_to_global pushes when non-empty
     b = prog.body(P + "Local::push_to_global")
     for p in ctx.ex.paths(b):
